@@ -5,6 +5,7 @@ from vf.run import obligation
 from symx import unwrap, SymFP, SymBool, is_sym
 from vf import exp
 from coba.experiments import Experiment
+from coba.environments import Environments
 from coba.results import Result
 from coba.primitives import BinaryReward
 import coba.utilities as cu
@@ -24,7 +25,7 @@ FUNCS = ['coba.results.core:TransactionEncode.filter','coba.results.core:Transac
 VALUES = {
     'int': 3, 'negint': -2, 'float': 0.123456789, 'negfloat': -0.1234567, 'intfloat': 2.0, 'big': 123456.7890123, 'nan': float('nan'), 'inf': float('inf'), 'ninf': -float('inf'),
     'none': None, 'str': 'a"b\nc,é\\', 'empty': '', 'list': [1, 2.5, 'x'], 'tuple': (1, 0.000004, None), 'nested': [[1.23456789, [2]], (3,)], 'dict': {'k': 1.999999, 'j': [1]},
-    'emptylist': [], 'bool': True, 'reward': BinaryReward(1),
+    'emptylist': [], 'bool': True, 'reward': BinaryReward(1), 'mixeddict': {0: 1, 'other': [2], 1: 0.5},
 }
 KINDS = list(VALUES)
 
@@ -75,8 +76,8 @@ def _classify(v): return v['what'].split(':')[0][:110]
 def shape_params(tier):
     return [dict(k1=a, k2=b) for a in range(len(KINDS)) for b in (range(0,len(KINDS),3) if tier=='quick' else range(len(KINDS)))]
 
-@obligation('C07','shape', bounds={'quick':"one triple, 3 rows over keys {a, b, 7 (non-string)}: key presence per row enumerated (ragged), value kind of 'a' = k1 (optionally k2 in the last row: one column, two shapes) (all 19 kinds), of 'b' = k2 (every third kind), key 7 an int; params dictionaries of environment/learner/evaluator carry the same two kinds; sinks {none, plain file, .gz file, file with .gz inside its name} + from_file",
-                                   'thorough':"all 19 x 19 kind pairs"},
+@obligation('C07','shape', bounds={'quick':"one triple, 3 rows over keys {a, b, 7 (non-string)}: key presence per row enumerated (ragged), value kind of 'a' = k1 (optionally k2 in the last row: one column, two shapes) (all 20 kinds), of 'b' = k2 (every third kind), key 7 an int; params dictionaries of environment/learner/evaluator carry the same two kinds; sinks {none, plain file, .gz file, file with .gz inside its name} + from_file",
+                                   'thorough':"all 20 x 20 kind pairs"},
             functions=FUNCS, params=shape_params, classify=_classify, budget={'quick':100,'thorough':1500})
 def shape(sym, k1, k2):
     ka, kb = KINDS[k1], KINDS[k2]
@@ -306,3 +307,49 @@ def minimize_close(sym):
     else:
         d = y - x if not isinstance(y, SymFPR) else SymFPR(y.t - x.t)
         sym.check((d <= 0.5e-5+1e-9) & (d >= -0.5e-5-1e-9), "|minimize(x)-x| <= 0.5e-5 (+1e-9)")
+
+
+# ---------------------------------------------------------------------------------------------------
+@obligation('C07','several_triples', bounds="2 learners x 2 evaluators on one environment (plain, or chunk()-ed so that tasks are processed in another order), every evaluator yielding 1-3 rows that name their triple; in-process, with/without a result file: for every triple the interactions table holds exactly its rows, in order, numbered 1..N; the table is sorted by (environment, learner, evaluator) and where(evaluator_id=k) / where(learner_id=k) select exactly the rows of those triples",
+            functions=FUNCS, classify=_classify, params=lambda tier: [dict(chunked=c, sink=s) for c in (False,True) for s in ('none','plain','gz')])
+def several_triples(sym, chunked, sink):
+    nrows = {(j,k): sym.choice(f'n{j}{k}', [1,2,3]) for j in range(2) for k in range(2)}
+    order = sym.choice('order', ['lv','vl','mixed'])
+    exp.reset_context()
+    env = PEnv({'name':'E'})
+    if chunked: env = Environments(env).chunk()._envs[0]
+    lrns = [PLearner({'family':'F','tag':j}) for j in range(2)]
+    vals = [ShapeEval([], {'vtag':k}) for k in range(2)]
+    class TripleEval(ShapeEval):
+        def __init__(self, k): self.k = k; self._params = {'vtag': k}
+        def evaluate(self, env, lrn):
+            j = lrn.params['tag']
+            for i in range(nrows[(j,self.k)]): yield {'who': f'L{j}V{self.k}', 'i': i, 'vec': [j, self.k, i]}
+    vals = [TripleEval(0), TripleEval(1)]
+    pairs = {'lv': [(0,0),(0,1),(1,0),(1,1)], 'vl': [(0,0),(1,0),(0,1),(1,1)], 'mixed': [(1,1),(0,0),(1,0),(0,1)]}[order]
+    triples = [(env, lrns[j], vals[k]) for j,k in pairs]
+    d = tempfile.mkdtemp(prefix='c07t_')
+    try:
+        f = None if sink == 'none' else os.path.join(d, 'r.log.gz' if sink == 'gz' else 'r.log')
+        try: res = Experiment(triples).run(f, quiet=True, processes=1, maxchunksperchild=0, maxtasksperchunk=0)
+        except Exception as e: sym.fail(f"Experiment.run raised {type(e).__name__}: {str(e)[:90]}")
+        results = [('run', res)] + ([('from_file', Result.from_file(f))] if f else [])
+        for label, r in results:
+            t = r.interactions
+            cols = list(t.columns)
+            rows = [dict(zip(cols, x)) for x in zip(*[t[c] for c in cols])] if len(t) else []
+            lid = {row['tag']: row['learner_id'] for row in (dict(zip(r.learners.columns, x)) for x in zip(*[r.learners[c] for c in r.learners.columns]))}
+            vid = {row['vtag']: row['evaluator_id'] for row in (dict(zip(r.evaluators.columns, x)) for x in zip(*[r.evaluators[c] for c in r.evaluators.columns]))}
+            sym.check(len(rows) == sum(nrows.values()), f"{label}: {len(rows)} interaction rows, the evaluators yielded {sum(nrows.values())}")
+            keys = [(x['environment_id'], x['learner_id'], x['evaluator_id'], x['index']) for x in rows]
+            sym.check(keys == sorted(keys), f"{label}: the interactions table is not ordered by (environment, learner, evaluator, index): {keys}")
+            for (j,k),n in nrows.items():
+                mine = [x for x in rows if x['learner_id'] == lid[j] and x['evaluator_id'] == vid[k]]
+                sym.check([x['index'] for x in mine] == list(range(1,n+1)) and all(x['who'] == f'L{j}V{k}' and x['i'] == i and tuple(x['vec']) == (j,k,i) for i,x in enumerate(mine)), f"{label}: rows of triple (learner {j}, evaluator {k}) are {[(x['index'],x['who'],x['i']) for x in mine]}, it yielded {n} rows")
+                sel = r.interactions.where(evaluator_id=vid[k])
+                sym.check(sorted(set(sel['who'])) == sorted({f'L{jj}V{k}' for jj in range(2)}) and len(sel) == sum(nrows[(jj,k)] for jj in range(2)), f"{label}: where(evaluator_id={vid[k]}) selects {sorted(set(sel['who']))} ({len(sel)} rows)")
+            for j in range(2):
+                sel = r.interactions.where(learner_id=lid[j])
+                sym.check(sorted(set(sel['who'])) == sorted({f'L{j}V{kk}' for kk in range(2)}) and len(sel) == sum(nrows[(j,kk)] for kk in range(2)), f"{label}: where(learner_id={lid[j]}) selects {sorted(set(sel['who']))} ({len(sel)} rows)")
+    finally:
+        shutil.rmtree(d, ignore_errors=True)
